@@ -262,6 +262,39 @@ class DynamicConstantProvider(DelegatingConstantProvider):
             self.add_value(value)
             self.add_value(self.STRING_FUNCTION_LOOKUP[name](value))
 
+    def add_value_for_startswith(self, value, prefix) -> None:
+        """Entry point for the instrumented code. Track ``value.startswith(prefix)``.
+
+        The instrumented code only hands over the two operands; a string that
+        satisfies the check is built here, and only for two plain strings (or two
+        plain bytes).  Thus, no operator of the module under test is executed, and
+        nothing can be raised, e.g., for a tuple of prefixes.
+
+        Args:
+            value: The object whose ``startswith`` method is called
+            prefix: The argument of the call
+        """
+        # Might be proxies.
+        value = unwrap(value)
+        prefix = unwrap(prefix)
+        if type(value) is type(prefix) and type(value) in {str, bytes}:
+            self.add_value(prefix + value)
+
+    def add_value_for_endswith(self, value, suffix) -> None:
+        """Entry point for the instrumented code. Track ``value.endswith(suffix)``.
+
+        See ``add_value_for_startswith``.
+
+        Args:
+            value: The object whose ``endswith`` method is called
+            suffix: The argument of the call
+        """
+        # Might be proxies.
+        value = unwrap(value)
+        suffix = unwrap(suffix)
+        if type(value) is type(suffix) and type(value) in {str, bytes}:
+            self.add_value(value + suffix)
+
 
 def _find_modules_with_constants(project_path: str | os.PathLike) -> OrderedSet[str]:
     modules: OrderedSet[str] = OrderedSet()
